@@ -150,7 +150,7 @@ def variants():
                  (R(labels="int", **g), {"second_problem_n_delta": 1})],
         "bpi": [({"kind": "tiger"}, {"nodes": 1}), ({"kind": "tiger"}, {"iterations": 12}), ({"kind": "tiger", "coherence": "1"}, {})],
         "ga": [({"kind": "tiger"}, {"nodes": 1}), ({"kind": "tiger"}, {"iterations": 1}), ({"kind": "tiger", "gamma": "0"}, {})],
-        "semimdp": [(R(labels="falsy_str"), {}), (R(labels="unsorted", n=12), {}), (R(), {"nsim": 1}), (R(), {"include_mdp_actions": True}),
+        "semimdp": [(R(labels="falsy_str"), {}), (R(labels="unsorted", n=12), {}), (R(), {"nsim": 1}), (R(actions_as="list"), {"include_mdp_actions": True}),
                     (R(labels="int"), {"option_names": "falsy"}), (R(labels="falsy_tuple"), {"option_names": "int"})],
         "implicit": [({"kind": "none"}, {"n_samples": 1}), ({"kind": "none", "events": [0, "", [], 0.5]}, {}),
                      ({"kind": "none", "events": ["only"]}, {}), ({"kind": "none", "events": [0, -1, 2]}, {})],
@@ -163,6 +163,92 @@ def variants():
                           ({"kind": "loadunload"}, {"controller": "valuebased", "max_steps": 6, "initial_state": True}),
                           ({"kind": "tiger"}, {"nodes": 1})],
     }
+
+
+def variants2():
+    """audit round 2: tiny probabilities that matter, large magnitudes with near ties, non-dyadic numbers, second problems
+    with other labels, sizes and shapes at the edges, integer / float32 typed inputs, long episodes"""
+    det = dict(deterministic=True)
+    g = dict(reward="goal")
+    nd = dict(probs="nondyadic")
+    near1 = "1073741823/1073741824"        # 1 - 2^-30
+    v = {c: [] for c in COMPONENTS}
+    # (1) tiny probabilities
+    v["rmax"] += [(R(tiny=True, **g), {})]
+    v["semimdp"] += [(R(tiny=True, labels="int"), {"option_names": "int"})]
+    for c in ("laostar", "lrtdp", "mdp_rollout"):
+        v[c] += [(R(init_dist="tiny"), {})]
+    v["pomdp_rollout"] += [({"kind": "tiger", "coherence": near1}, {})]
+    v["ga"] += [({"kind": "tiger", "coherence": near1}, {})]
+    # (2) large magnitudes, near ties
+    for c in ("laostar", "lrtdp", "td", "mdp_rollout"):
+        v[c] += [(R(reward="neartie"), {})]
+    v["lrtdp"] += [(R(reward_scale="1000000"), {})]
+    # (3) non-dyadic numbers
+    for c in ("lrtdp", "mdp_rollout"):
+        v[c] += [(R(**nd), {}), (R(labels="int", **nd), {})]
+    for c in ("td", "rmax"):
+        v[c] += [(R(**nd, **g), {})]
+    # (5) second problem with other labels / label order
+    for c in ("laostar", "lrtdp"):
+        v[c] += [(R(), {"second_problem_labels": "unsorted"}), (R(labels="int"), {"second_problem_labels": "negint"})]
+    for c in ("td", "rmax"):
+        v[c] += [(R(**g), {"second_problem_labels": "unsorted"})]
+    for c in ("astar", "bfs"):
+        v[c] += [(R(n=12, **det), {"second_problem_labels": "unsorted"})]
+    # (6) sizes and shapes at the edges; integer / float32 typed inputs; long episodes
+    for c in ("laostar", "lrtdp", "mdp_rollout", "td"):
+        v[c] += [(R(n=1, k=1, ninit=1), {}), (R(n=3, k=3, ninit=1), {}), (R(n=13, k=1, ninit=1), {}),
+                 (R(reward="int", init_dist="int"), {}), (R(float32=True), {})]
+    v["rmax"] += [(R(n=3, k=3, ninit=1, **g), {}), (R(n=13, k=1, ninit=1, **g), {})]
+    for c in ("astar", "bfs"):
+        v[c] += [(R(n=1, k=1, **det), {}), (R(n=13, k=1, **det), {}), (R(n=3, k=3, **det), {}), (R(n=12, reward="int", **det), {})]
+    v["semimdp"] += [(R(n=3, k=3, ninit=1, labels="int"), {"option_names": "int", "nstates": 2})]
+    v["mdp_rollout"] += [(R(no_goal=True), {"max_steps": 1200, "nsim": 2})]
+    v["pomdp_rollout"] += [({"kind": "tiger"}, {"max_steps": 1200}), ({"kind": "loadunload", "nstates": 2}, {})]
+    v["implicit"] += [({"kind": "none", "events": [1]}, {"n_samples": 1})]
+    return v
+
+
+def input_features(cases):
+    """measured counters over the generated cases (audit classes)"""
+    f = {}
+
+    def inc(k, c=1):
+        f[k] = f.get(k, 0) + c
+    for c in cases:
+        p, par = c["problem"], c.get("params", {})
+        if p.get("tiny") or p.get("init_dist") == "tiny" or "1073741823" in str(p.get("coherence", "")):
+            inc("tiny_probability_2^-30..2^-58")
+        if p.get("reward") == "neartie" or p.get("reward_scale"):
+            inc("large_magnitude_or_near_tie")
+        if p.get("probs") == "nondyadic" or p["kind"] in ("tiger", "heavenorhell", "rngrid", "gridworld"):
+            inc("non_dyadic_numbers")
+        if p.get("persistent") or p.get("actions_as") == "list" or p["kind"] == "opengrid":
+            inc("persistent_shared_containers")
+        if par.get("second_problem_n_delta"):
+            inc("second_problem_other_size")
+        if par.get("second_problem_labels"):
+            inc("second_problem_other_labels")
+        if p.get("n") == 1:
+            inc("one_state")
+        if p.get("k") == 1:
+            inc("one_action")
+        if p.get("n") is not None and p.get("n") == p.get("k"):
+            inc("n_states_eq_n_actions")
+        if p.get("n") == 13 and p.get("k") == 1:
+            inc("chain_path_length_n-1_non_power_of_two")
+        if par.get("max_steps", 0) >= 1000:
+            inc("episode_longer_than_1000_steps")
+        if p.get("reward") == "int" or p.get("init_dist") == "int" or p["kind"] == "opengrid":
+            inc("integer_typed_numbers")
+        if p.get("float32"):
+            inc("float32_numbers")
+        if par.get("option_names") == "none":
+            inc("unnamed_options")
+        if par.get("max_steps") in (0, 1) or par.get("episodes") in (0, 1) or par.get("n_samples") == 1 or par.get("nsim") == 1:
+            inc("step_or_sample_cap_0_or_1")
+    return f
 
 
 def generated(rng, tier):
@@ -190,6 +276,8 @@ def generated(rng, tier):
 def keyclass(case):
     """'int' when neither states, actions nor option names of the problem contain a string, else 'str'"""
     p, par = case["problem"], case.get("params", {})
+    if p["kind"] == "rand" and par.get("second_problem_labels") in ("unsorted", "str", "falsy_str"):
+        return "str"
     if p["kind"] == "rand" and p.get("labels", "str") in ("int", "tuple", "falsy_tuple", "float", "negint"):
         if case["component"] == "semimdp" and par.get("option_names", "str") in ("str", "falsy"):
             return "str"
@@ -220,7 +308,7 @@ def build_cases(ctx):
                     if comp == "pomdp_rollout":
                         c["scrambles"] = 4
                     cases.append(c)
-        for prob, par in variants()[comp]:
+        for prob, par in variants()[comp] + variants2()[comp]:
             for seed in (seeds[:1] if tier == "quick" else seeds[:2]):      # quick: seed 0 only (always included)
                 c = {"component": comp, "problem": prob, "params": par, "seed": seed, "origin": "variant",
                      "x": "second_problem_n_delta" in par, "t": seed == 0, "p": seed == 0, "h": seed == 0}
@@ -305,6 +393,8 @@ def env(hs, run):
              "R": "SECOND CALL of plan_on/train_on/run_on/query on the SAME object that produced run A",
              "T": "fresh object; the problem object had its cached views (state_list, matrices, reachable_states) touched first",
              "H": "fresh construction after 1-3 unrelated objects of the same classes were constructed in the process",
+             "XQ": "late re-query of the FIRST call's result (policy on all states, tables) after the object was used on a second problem",
+             "BQ": "the same late query on a fresh object that made one call only",
              "P1": "fresh component on a problem object that is shared with the next run",
              "P2": "second fresh component on the SAME problem object the previous component already used",
              "XR": "the object of run A called on a SECOND problem (same labels, different numbers)",
@@ -342,7 +432,7 @@ def analyse(ctx, cases, results, hashseeds):
         for hs in hashseeds:
             r = rs[hs]
             runs = [("A", r["A"]), ("B", r["B"])] + [("C%d" % (k + 2), c) for k, c in enumerate(r["C"])] + [("D", r["D"]), ("R", r["R"])]
-            extra = [(k, r[k]) for k in ("T", "XR", "XA", "XF", "H") if k in r]
+            extra = [(k, r[k]) for k in ("T", "XR", "XA", "XF", "H", "XQ", "BQ") if k in r]
             counters["runs"] += len(runs)
             counters["error_runs"] += sum(1 for _, x in runs if "error" in x)
             a = r["A"]
@@ -355,6 +445,16 @@ def analyse(ctx, cases, results, hashseeds):
                         break
             if dig(r["R"]) != dig(a):
                 add(comp, "second-call-on-same-object-differs", "", i, pair_detail(case, hs, "A", a, hs, "R", r["R"]))
+            if "XQ" in r and "BQ" in r:
+                counters["stale_result_requeries"] = counters.get("stale_result_requeries", 0) + 1
+                if dig(r["XQ"]) != dig(r["BQ"]):
+                    add(comp, "first-result-changes-after-the-object-is-used-again", "", i, pair_detail(case, hs, "BQ", r["BQ"], hs, "XQ", r["XQ"]))
+            if r.get("inputs_mutated"):
+                add(comp, "mutates-the-callers-constructor-inputs", "", i,
+                    {"case": case, "environment": {"PYTHONHASHSEED": hs},
+                     "note": "lists / arrays handed to a constructor (option lists, controller arrays) changed during a call"})
+            if "problem_fingerprints" in r:
+                counters["problem_fingerprint_checks"] = counters.get("problem_fingerprint_checks", 0) + 1
             if "H" in r and dig(r["H"]) != dig(a):
                 add(comp, "depends-on-objects-constructed-earlier-in-the-process", "", i, pair_detail(case, hs, "A", a, hs, "H", r["H"]))
             if "T" in r and dig(r["T"]) != dig(a):
@@ -419,10 +519,11 @@ def report_runtime(ctx, cases, fails):
         elif axis in ("depends-on-objects-constructed-earlier-in-the-process", "depends-on-what-ran-earlier-in-the-process"):
             qual = "seed0-only" if all(c["seed"] == 0 for c in fc) else "any-seed"
             exhibited.setdefault((comp, "history"), items[0][1])
-        elif axis in ("mutates-the-problem-object", "differs-when-problem-object-is-shared-or-reused"):
+        elif axis in ("mutates-the-problem-object", "differs-when-problem-object-is-shared-or-reused",
+                      "mutates-the-callers-constructor-inputs"):
             qual = "seed0-only" if all(c["seed"] == 0 for c in fc) else "any-seed"
             exhibited.setdefault((comp, "alias"), items[0][1])
-        elif axis in (CARRY_AXIS, "reused-object-on-second-problem-differs"):
+        elif axis in (CARRY_AXIS, "reused-object-on-second-problem-differs", "first-result-changes-after-the-object-is-used-again"):
             qual = "seed0-only" if all(c["seed"] == 0 for c in fc) else "any-seed"
             exhibited.setdefault((comp, "carry"), items[0][1])
         else:
@@ -519,6 +620,9 @@ def run(ctx):
     ctx.coverage.update({
         "evaluations": len(cases) * len(hashseeds) + sum(1 for r in results.get(ORDER_SET, []) if r),
         "second_problem_runs": counters.get("second_problem_runs", 0),
+        "input_features": dict(input_features(cases), stale_result_requeries=counters.get("stale_result_requeries", 0),
+                               problem_fingerprint_checks=counters.get("problem_fingerprint_checks", 0),
+                               second_problem_runs=counters.get("second_problem_runs", 0)),
         "by_origin": {o: sum(1 for c in cases if c.get("origin") == o) for o in ("corpus", "generated", "variant")},
         "distinct_nontrivial": len(nontrivial),
         "rule": "cases = component x problem x seed; problems = fixed corpus (random QuickTabularMDP/QuickMDP with str / int / tuple "
